@@ -86,9 +86,15 @@ def validate_stream(chk, path, pid, nshards, boundary=None, header=None, module=
     return res
 
 
-def model_check(chk, module, cfg=None, workers=4, timeout=1500, env=None, expect_violation=False):
+def model_check(chk, module, cfg=None, workers=4, timeout=1500, env=None, expect_violation=False, informative=False):
     r = tlc(module, cfg=cfg, workers=workers, timeout=timeout, env=env, keep_stdout=True)
     bad = r["rc"] != 0 or r["error"]
+    if informative:
+        # a design-level observation recorded in the evidence; it neither raises nor suppresses anything
+        chk.coverage.setdefault("model_runs", []).append(
+            {"module": module, "cfg": cfg or module, "distinct_states": r["distinct"], "states_generated": r["states"], "wall_s": round(r["wall"], 1),
+             "informative": True, "outcome": "counterexample" if bad else "holds"})
+        return r
     if expect_violation:
         if not bad:
             tool_error("vacuity guard: %s/%s was expected to produce a counterexample" % (module, cfg))
@@ -144,6 +150,10 @@ def check_rules(pid, tier, seed):
     quick = tier == "quick"
     # 1. the rules as a design: exhaustive exploration with the module's own invariants
     model_check(chk, "MCChess", cfg="MCChess" if quick else "MCChess3", workers=8)
+    if pid == "C10":
+        # the history clause at design level: queries, clones and derived objects in every order; stale-cache variant as guard
+        model_check(chk, "AttackCache", cfg="AttackCache", workers=2)
+        model_check(chk, "AttackCache", cfg="AttackCacheStale", workers=2, expect_violation=True)
     # 2. impl -> spec: random/corpus play validated step by step
     games, plies = (48, 70) if quick else (400, 120)
     emit = {"C01": "move", "C02": "move,perform", "C10": "move,attacks"}[pid]
